@@ -166,7 +166,10 @@ EvalE(P, e, env, pos) ==
     [] e.k = "and"  -> FoldAnd(EvalArgs(P, e.c, env, pos), Len(e.c))
     [] e.k = "or"   -> FoldOr(EvalArgs(P, e.c, env, pos), Len(e.c))
     [] e.k = "call" ->
-         IF e.f \in ArrIntrinsics /\ Len(e.c) >= 1 /\ e.c[1].k = "var" /\ e.c[1].name \in DOMAIN env /\ env[e.c[1].name].t = "arr"
+         \* PRESENT(dummy): an omitted optional actual (k = "none") binds the dummy to [t |-> "absent"]
+         IF e.f = "present" THEN (IF Len(e.c) = 1 /\ e.c[1].k = "var" /\ e.c[1].name \in DOMAIN env
+                                  THEN L(env[e.c[1].name].t # "absent") ELSE Err("present"))
+         ELSE IF e.f \in ArrIntrinsics /\ Len(e.c) >= 1 /\ e.c[1].k = "var" /\ e.c[1].name \in DOMAIN env /\ env[e.c[1].name].t = "arr"
          THEN ArrIntrinsic(e.f, env[e.c[1].name], [i \in 1..Len(e.c) |-> IF i = 1 THEN I(0) ELSE EvalE(P, e.c[i], env, pos)])
          ELSE IF e.f \in IntrinsicNames THEN Intrinsic(e.f, EvalArgs(P, e.c, env, pos))
          ELSE IF HasUnit(P, e.f) /\ Unit(P, e.f).kind = "function"
@@ -425,7 +428,8 @@ CallUnit(P, cal, actuals0, S) ==
       isarg(n) == \E i \in 1..Len(cal.args) : cal.args[i] = n
       actualval(i) ==
          LET a == actuals[i] IN
-         IF a.k = "var" /\ a.name \in DOMAIN S.env /\ S.env[a.name].t \in {"arr", "undef"} THEN S.env[a.name]
+         IF a.k = "none" THEN [t |-> "absent"]          \* omitted optional argument
+         ELSE IF a.k = "var" /\ a.name \in DOMAIN S.env /\ S.env[a.name].t \in {"arr", "undef"} THEN S.env[a.name]
          ELSE EvalE(P, a, S.env, <<>>)
       hostenv == IF cal.host # "" THEN S.env ELSE [n \in {} |-> Undef]
       own == DeclNames(cal)
